@@ -26,8 +26,11 @@ def jobs(prop, tier, seed):
     for pid, (cs, _) in CALL_ARGS.items():  # per-call schema= on both sides
         b = dict(depth=2, width=2, strlen=2, budget=1, distinct_sets=True)
         out.append(dict(harness="C06", pool="data", pid=pid, opts={"call_schema": [list(c) for c in cs]}, bounds=b, budget_s=30))
-    for pid in pools.ids("data", tier) + pools.random_ids(seed, 8 if tier == "quick" else 60):
-        spec, _ = pools.get("data", pid)
+    data_ids = pools.ids("data", tier)
+    todo = [("data", pid) for pid in data_ids + pools.random_ids(seed, 8 if tier == "quick" else 60)]
+    todo += [("union", pid) for pid in pools.ids("union", tier) if pid not in data_ids]
+    for pool, pid in todo:
+        spec, _ = pools.get(pool, pid)
         if any(s.k == "obj" and any(f.fall_back for f in s.a) for s in walk(spec)):
             continue  # fall_back_on_default metadata is not in the type space of C06
         optsets = [{}]
@@ -41,7 +44,7 @@ def jobs(prop, tier, seed):
             else:
                 b = dict(depth=3, width=2 if big else 3, strlen=3, budget=2 if big else 3, distinct_sets=True)
                 budget_s = 120
-            out.append(dict(harness="C06", pool="data", pid=pid, opts=o, bounds=b, budget_s=budget_s))
+            out.append(dict(harness="C06", pool=pool, pid=pid, opts=o, bounds=b, budget_s=budget_s))
     return out
 
 
@@ -86,6 +89,65 @@ def repair_flatten(sch, additional=False):
     return sch
 
 
+def repair_discriminator(sch, spec, aliaser, additional=False):
+    """the schema as it would be if the discriminator property belonged to the alternatives
+    (known finding KF-discriminator-schema): every alternative of a discriminated union
+    allows and requires the property, with the keys mapped to it as only values; the
+    subclasses of an inherited discriminator are closed like any other object"""
+    import copy
+
+    aliaser = aliaser or (lambda name: name)
+    sch = copy.deepcopy(sch)
+    defs = sch.get("$defs", {})
+    for node in walk(spec):
+        if node.k != "disc":
+            continue
+        p = aliaser(node.opt("alias"))
+        keys = {}
+        for key, cname in node.opt("mapping"):
+            keys.setdefault(cname, []).append(key)
+        for cname, ks in keys.items():
+            D = defs.get(cname)
+            if not isinstance(D, dict):
+                return None
+            declared = set(D.get("properties", {}))
+            for m in D.get("allOf", []):
+                if isinstance(m, dict) and "$ref" not in m:
+                    declared |= set(m.get("properties", {}))
+            if p not in declared:  # else a field of the alternative (Literal), only made required
+                D["properties"] = {**D.get("properties", {}), p: {"enum": list(ks)}}
+            D["required"] = list(D.get("required", [])) + [p]
+            if node.opt("inherited") and not additional:
+                D["unevaluatedProperties"] = False
+    return sch
+
+
+def repair_lone_subclass(sch, additional=False):
+    """the schema as it would be if a subclass of a discriminated class, used on its own,
+    were described as the object deserialize / serialize handle (known finding
+    KF-discriminated-subclass-alone): without the reference to the parent (which requires
+    the discriminator property) and closed like any other object"""
+    defs = sch.get("$defs", {}) if isinstance(sch, dict) else {}
+
+    def rec(x):
+        if isinstance(x, list):
+            return [rec(v) for v in x]
+        if not isinstance(x, dict):
+            return x
+        all_of = x.get("allOf")
+        if (
+            isinstance(all_of, list) and len(all_of) == 2 and isinstance(all_of[0], dict) and set(all_of[0]) == {"$ref"}
+            and "discriminator" in defs.get(str(all_of[0]["$ref"]).rsplit("/", 1)[-1], {})
+        ):
+            own = dict(rec(all_of[1]))
+            if not additional:
+                own["additionalProperties"] = False
+            return {**{k: rec(v) for k, v in x.items() if k != "allOf"}, **own}
+        return {k: rec(v) for k, v in x.items()}
+
+    return rec(sch)
+
+
 class Inst:
     def __init__(self, job):
         from apischema import ValidationError, deserialization_method
@@ -103,7 +165,11 @@ class Inst:
             self.kw["schema"] = call
             skw["schema"] = call
         self.method = deserialization_method(self.prog.tp, **self.kw)
-        self.schema = dict(deserialization_schema(self.prog.tp, **skw))
+        self.schema_error = None
+        try:
+            self.schema = dict(deserialization_schema(self.prog.tp, **skw))
+        except Exception as e:  # a supported type without a schema: reported from body()
+            self.schema, self.schema_error = {}, type(e).__name__
         self.opts = ref_opts(job)
         self.bounds = bounds_of(job)
         self.VE = ValidationError
@@ -119,6 +185,8 @@ class Inst:
         ]
         self.relax = ()
         self.repair = False
+        self.repair_disc = False
+        self.repair_lone = False
         self.want_samples = 6
 
     def js_triples(self, witnesses):
@@ -134,6 +202,9 @@ class Inst:
         return out
 
     def body(self, ctx: Ctx) -> Optional[Failure]:
+        if self.schema_error:
+            ctx.run_phase()
+            return Failure("schema-generation-raises", self.schema_error, witness=None, extra={"exc": self.schema_error})
         g = Gen(ctx, self.prog, self.bounds, self.opts)
         d = g.json(self.prog.spec)
         ctx.witness = d
@@ -149,12 +220,19 @@ class Inst:
         sch = self.schema
         if self.repair:
             sch = repair_flatten(sch, self.job.get("opts", {}).get("additional_properties", False))
+        if self.repair_disc:
+            o = self.job.get("opts", {})
+            sch = repair_discriminator(sch, self.prog.spec, get_aliaser(o.get("aliaser")), o.get("additional_properties", False))
+            if sch is None:
+                return Failure("discriminator-repair-impossible", witness=d)
+        if self.repair_lone:
+            sch = repair_lone_subclass(sch, self.job.get("opts", {}).get("additional_properties", False))
         try:
             valid = Evaluator(sch, D2020).valid(d)
         except OutsideDomain:
             raise Assume("outside the common semantic domain")
         except DanglingRef as e:
-            return Failure("dangling-ref", str(e), witness=d)
+            return Failure("ill-founded-ref" if type(e).__name__ == "IllFounded" else "dangling-ref", str(e), witness=d)
         if self.relax:
             # known-finding arbitration: the strict reference sides with the schema and
             # the relaxed reference (semantics of the defect) sides with the real code
